@@ -134,31 +134,34 @@ theorem visible_subset_committed (m : MDesc) (fs : FS) (j : Nat) (n : Option Nat
   · right
     exact ⟨h1, by simp only [dbStoreEntry] at h ⊢; rwa [h2] at h⟩
 
-/-- **Entries committed earlier remain intact and retrievable**: an entry that
-    a reader obtained for key `k` is obtained unchanged after any later
-    `store_model_entry` of another key, completed or interrupted at any point
+/-- **Entries committed earlier remain intact and retrievable** (general form):
+    an entry a reader obtained for key `k` is obtained unchanged after any
+    later transaction on another key whose body stays inside the footprint
+    `FootN` with a fresh dataset number, completed or interrupted at any point
     with any torn write — on every file system. -/
-theorem earlier_commits_intact (m : MDesc) (fs : FS) (j : Nat) (n : Option Nat) (k : String) (e : Entry)
-    (hk : k ≠ m.key) (hk2 : k ≠ ".datasets")
+theorem earlier_commits_intact_txn (key ext dh : String) (body : Prog Unit)
+    (hfoot : ∀ fs o, o ∈ (body fs).1 → ∃ N, highest fs < N ∧ FootN key ext dh N o.path)
+    (fs : FS) (j : Nat) (n : Option Nat) (k : String) (e : Entry)
+    (hk : k ≠ key) (hk2 : k ≠ ".datasets")
     (h : (dbRetrieve k fs).2 = .ok e) :
-    (dbRetrieve k (crash fs (dbStoreEntry m fs).1 j n)).2 = .ok e := by
+    (dbRetrieve k (crash fs (txn key body fs).1 j n)).2 = .ok e := by
   rw [dbRetrieve_result] at h ⊢
   by_cases hP : pexists fs (pendingPath k) = true
   · simp [hP] at h
   · simp only [hP] at h
     -- paths the interrupted call addresses
-    have hops : ∀ o ∈ (dbStoreEntry m fs).1,
-        o.path = keyDir m.key ∨ o.path = metaDir m.key ∨ o.path = lockPath ∨ o.path = pendingPath m.key ∨
-        BodyFoot m (apply (applyAll fs (openKey m.key fs)) (Op.create (pendingPath m.key))) o.path := by
+    have hops : ∀ o ∈ (txn key body fs).1,
+        o.path = keyDir key ∨ o.path = metaDir key ∨ o.path = lockPath ∨ o.path = pendingPath key ∨
+        (∃ N, highest (apply (applyAll fs (openKey key fs)) (Op.create (pendingPath key))) < N ∧ FootN key ext dh N o.path) := by
       intro o ho
-      simp only [dbStoreEntry, txn] at ho
+      simp only [txn] at ho
       split at ho
       · rcases (openKey_paths ho).1 with e | e | e <;> simp [e]
-      · generalize hb : storeEntryBody m (apply (applyAll fs (openKey m.key fs)) (Op.create (pendingPath m.key))) = br at ho
-        have hbody : ∀ o ∈ br.1, BodyFoot m (apply (applyAll fs (openKey m.key fs)) (Op.create (pendingPath m.key))) o.path :=
-          fun o ho => storeEntryBody_paths (by rw [hb]; exact ho)
+      · generalize hb : body (apply (applyAll fs (openKey key fs)) (Op.create (pendingPath key))) = br at ho
+        have hbody : ∀ o ∈ br.1, (∃ N, highest (apply (applyAll fs (openKey key fs)) (Op.create (pendingPath key))) < N ∧ FootN key ext dh N o.path) :=
+          fun o ho => hfoot _ o (by rw [hb]; exact ho)
         obtain ⟨b, r⟩ := br
-        have : o ∈ openKey m.key fs ∨ o = Op.create (pendingPath m.key) ∨ o ∈ b ∨ o = Op.unlink (pendingPath m.key) := by
+        have : o ∈ openKey key fs ∨ o = Op.create (pendingPath key) ∨ o ∈ b ∨ o = Op.unlink (pendingPath key) := by
           cases r with
           | error e =>
             simp only [List.mem_append, List.mem_cons] at ho
@@ -178,9 +181,9 @@ theorem earlier_commits_intact (m : MDesc) (fs : FS) (j : Nat) (n : Option Nat) 
         · simp [Op.path]
         · exact Or.inr (Or.inr (Or.inr (Or.inr (hbody o ho))))
         · simp [Op.path]
-    generalize hfsB : apply (applyAll fs (openKey m.key fs)) (Op.create (pendingPath m.key)) = fsB at hops
-    have hne : ∀ p, p ≠ keyDir m.key → p ≠ metaDir m.key → p ≠ lockPath → p ≠ pendingPath m.key →
-        ¬ BodyFoot m fsB p → get (crash fs (dbStoreEntry m fs).1 j n) p = get fs p := by
+    generalize hfsB : apply (applyAll fs (openKey key fs)) (Op.create (pendingPath key)) = fsB at hops
+    have hne : ∀ p, p ≠ keyDir key → p ≠ metaDir key → p ≠ lockPath → p ≠ pendingPath key →
+        (∀ N, highest fsB < N → ¬ FootN key ext dh N p) → get (crash fs (txn key body fs).1 j n) p = get fs p := by
       intro p a1 a2 a3 a4 a5
       apply get_crash_ne
       intro o ho hop
@@ -189,17 +192,18 @@ theorem earlier_commits_intact (m : MDesc) (fs : FS) (j : Nat) (n : Option Nat) 
       · exact a2 (hop ▸ e)
       · exact a3 (hop ▸ e)
       · exact a4 (hop ▸ e)
-      · exact a5 (hop ▸ e)
-    have hkk : (Seg.s k) ≠ Seg.s m.key := fun h' => hk (by cases h'; rfl)
-    have hP' : pexists (crash fs (dbStoreEntry m fs).1 j n) (pendingPath k) = pexists fs (pendingPath k) := by
+      · obtain ⟨N, hN, e⟩ := e
+        exact a5 N hN (hop ▸ e)
+    have hkk : (Seg.s k) ≠ Seg.s key := fun h' => hk (by cases h'; rfl)
+    have hP' : pexists (crash fs (txn key body fs).1 j n) (pendingPath k) = pexists fs (pendingPath k) := by
       unfold pexists
       rw [hne]
       all_goals first
         | (simp [pendingPath, metaDir, keyDir, lockPath, dbRoot]; done)
         | (simp [pendingPath, metaDir, keyDir, lockPath, dbRoot]; exact hk)
-        | (intro hb
-           rcases hb with e | e | e | e | e | e | e | e <;>
-             simp [pendingPath, metaDir, keyDir, modelPath, resultsPath, datasetsDir, hashDir, dbRoot] at e)
+        | (intro N hN hb
+           rcases hb with e | e | e | e | e | e | e | e | e <;>
+             simp [pendingPath, metaDir, keyDir, modelPath, resultsPath, metadataPath, datasetsDir, hashDir, dbRoot] at e)
     rw [hP']
     simp only [hP]
     have hfsB_csv : ∀ r, get fsB (datasetsDir ++ [.csv r]) = get fs (datasetsDir ++ [.csv r]) := by
@@ -209,38 +213,70 @@ theorem earlier_commits_intact (m : MDesc) (fs : FS) (j : Nat) (n : Option Nat) 
     apply readEntry_ok_congr (fs := fs) _ _ _ _ h
     · apply hne <;> first
         | (simp [modelPath, metaDir, keyDir, lockPath, pendingPath, dbRoot]; done)
-        | (intro hb
-           rcases hb with e | e | e | e | e | e | e | e <;>
-             simp [modelPath, metaDir, keyDir, resultsPath, datasetsDir, hashDir, dbRoot] at e
+        | (intro N hN hb
+           rcases hb with e | e | e | e | e | e | e | e | e <;>
+             simp [modelPath, metaDir, keyDir, resultsPath, metadataPath, datasetsDir, hashDir, dbRoot] at e
            exact hk e.1)
     · apply hne <;> first
         | (simp [modelPath, metaDir, keyDir, lockPath, pendingPath, dbRoot]; done)
-        | (intro hb
-           rcases hb with e | e | e | e | e | e | e | e <;>
-             simp [modelPath, metaDir, keyDir, resultsPath, datasetsDir, hashDir, dbRoot] at e
+        | (intro N hN hb
+           rcases hb with e | e | e | e | e | e | e | e | e <;>
+             simp [modelPath, metaDir, keyDir, resultsPath, metadataPath, datasetsDir, hashDir, dbRoot] at e
            exact hk e.1)
     · apply hne <;> first
         | (simp [resultsPath, metaDir, keyDir, lockPath, pendingPath, dbRoot]; done)
         | (simp [resultsPath, metaDir, keyDir, lockPath, pendingPath, dbRoot]; exact hk)
-        | (intro hb
-           rcases hb with e | e | e | e | e | e | e | e <;>
-             simp [modelPath, metaDir, keyDir, resultsPath, datasetsDir, hashDir, dbRoot] at e
+        | (intro N hN hb
+           rcases hb with e | e | e | e | e | e | e | e | e <;>
+             simp [modelPath, metaDir, keyDir, resultsPath, metadataPath, datasetsDir, hashDir, dbRoot] at e
            first | exact hk e | exact hk2 e.1)
     · intro r hr
       have hle : r ≤ highest fsB := le_highest (by simpa [pexists, hfsB_csv r] using hr)
       constructor
       · apply hne <;> first
           | (simp [datasetsDir, metaDir, keyDir, lockPath, pendingPath, dbRoot]; done)
-          | (intro hb
-             rcases hb with e | e | e | e | e | e | e | e <;>
-               simp [modelPath, metaDir, keyDir, resultsPath, datasetsDir, hashDir, dbRoot] at e
+          | (intro N hN hb
+             rcases hb with e | e | e | e | e | e | e | e | e <;>
+               simp [modelPath, metaDir, keyDir, resultsPath, metadataPath, datasetsDir, hashDir, dbRoot] at e
              omega)
       · apply hne <;> first
           | (simp [datasetsDir, metaDir, keyDir, lockPath, pendingPath, dbRoot]; done)
-          | (intro hb
-             rcases hb with e | e | e | e | e | e | e | e <;>
-               simp [modelPath, metaDir, keyDir, resultsPath, datasetsDir, hashDir, dbRoot] at e
+          | (intro N hN hb
+             rcases hb with e | e | e | e | e | e | e | e | e <;>
+               simp [modelPath, metaDir, keyDir, resultsPath, metadataPath, datasetsDir, hashDir, dbRoot] at e
              omega)
+
+
+/-- **Entries committed earlier remain intact and retrievable**: an entry that
+    a reader obtained for key `k` is obtained unchanged after any later
+    `store_model_entry` of another key, completed or interrupted at any point
+    with any torn write — on every file system. -/
+theorem earlier_commits_intact (m : MDesc) (fs : FS) (j : Nat) (n : Option Nat) (k : String) (e : Entry)
+    (hk : k ≠ m.key) (hk2 : k ≠ ".datasets")
+    (h : (dbRetrieve k fs).2 = .ok e) :
+    (dbRetrieve k (crash fs (dbStoreEntry m fs).1 j n)).2 = .ok e :=
+  earlier_commits_intact_txn m.key m.ext m.dh (storeEntryBody m)
+    (fun _ _ ho => (storeEntryBody_paths ho).footN) fs j n k e hk hk2 h
+
+/-- The same for `db.store_model(m)` … -/
+theorem earlier_commits_intact_store_model (m : MDesc) (fs : FS) (j : Nat) (n : Option Nat) (k : String) (e : Entry)
+    (hk : k ≠ m.key) (hk2 : k ≠ ".datasets")
+    (h : (dbRetrieve k fs).2 = .ok e) :
+    (dbRetrieve k (crash fs (dbStoreModel m fs).1 j n)).2 = .ok e :=
+  earlier_commits_intact_txn m.key m.ext m.dh (storeModel m)
+    (fun _ _ ho => (storeModel_paths ho).footN) fs j n k e hk hk2 h
+
+/-- … and for `db.store_metadata(key, md)`. -/
+theorem earlier_commits_intact_store_metadata (key md : String) (fs : FS) (j : Nat) (n : Option Nat) (k : String)
+    (e : Entry) (hk : k ≠ key) (hk2 : k ≠ ".datasets")
+    (h : (dbRetrieve k fs).2 = .ok e) :
+    (dbRetrieve k (crash fs (dbStoreMetadata key md fs).1 j n)).2 = .ok e :=
+  earlier_commits_intact_txn key "ctl" "" (storeMetadata key md)
+    (fun fs o ho => ⟨highest fs + 1, Nat.lt_succ_self _, by
+      simp only [storeMetadata, List.mem_cons, List.not_mem_nil, or_false] at ho
+      rcases ho with rfl | rfl <;>
+        exact Or.inr (Or.inr (Or.inr (Or.inr (Or.inr (Or.inr (Or.inr (Or.inr rfl)))))))⟩)
+    fs j n k e hk hk2 h
 
 end Pharmpy.C16
 
@@ -756,5 +792,64 @@ theorem committed_faithful (m : MDesc) (fs : FS)
       simp [read, hmod "mod", he]
     simp only [readEntry, findModel, e2, if_true, e3, hcsv', hdi', parseDinfo]
     rw [hRF]; cases hr : m.res <;> simp [MDesc.entry, hr, Except.map]
+
+end Pharmpy.C16
+
+namespace Pharmpy.C16
+
+/-! ### The intended repair of `store_model` (`storeModelR`, DB.lean)
+
+  An index entry is used only when its datainfo can be read, and a new dataset
+  is numbered above every number in use below `.datasets` (index entries
+  included).  The full statements hold for it. -/
+
+/-- **Later stores succeed** (full statement, repaired algorithm): on every
+    file system — hence after every crash — every store of a key that is not
+    itself left pending succeeds. -/
+theorem later_stores_succeed_repaired (m : MDesc) (fs : FS)
+    (hP : pexists fs (pendingPath m.key) = false) : (dbStoreEntryR m fs).2 = .ok () := by
+  have hp : pexists (applyAll fs (openKey m.key fs)) (pendingPath m.key) = false := by
+    simp only [pexists, get_openKey_of (pending_not_openKey m.key m.key)] at hP ⊢; exact hP
+  simp only [dbStoreEntryR, txn, hp, Bool.false_eq_true, if_false]
+  have := storeEntryBodyR_ok m (apply (applyAll fs (openKey m.key fs)) (Op.create (pendingPath m.key)))
+  generalize storeEntryBodyR m (apply (applyAll fs (openKey m.key fs)) (Op.create (pendingPath m.key))) = br at this
+  obtain ⟨b, r⟩ := br
+  simp only at this; subst this
+  rfl
+
+/-- The repaired store is atomic for its key … -/
+theorem repaired_atomic (m : MDesc) (fs : FS) (j : Nat) (n : Option Nat) :
+    (∀ p, p ≠ keyDir m.key → p ≠ metaDir m.key → p ≠ lockPath →
+        get (crash fs (dbStoreEntryR m fs).1 j n) p = get fs p)
+    ∨ pexists (crash fs (dbStoreEntryR m fs).1 j n) (pendingPath m.key) = true
+    ∨ ((dbStoreEntryR m fs).2 = .ok () ∧ crash fs (dbStoreEntryR m fs).1 j n = applyAll fs (dbStoreEntryR m fs).1) :=
+  txn_atomic m.key (storeEntryBodyR m)
+    (fun _ _ ho => by
+      obtain ⟨N, _, hf⟩ := storeEntryBodyR_paths ho
+      exact footN_ne_pending m.key hf) fs j n
+
+/-- … and leaves entries committed under other keys intact, wherever it is
+    interrupted. -/
+theorem earlier_commits_intact_repaired (m : MDesc) (fs : FS) (j : Nat) (n : Option Nat) (k : String) (e : Entry)
+    (hk : k ≠ m.key) (hk2 : k ≠ ".datasets")
+    (h : (dbRetrieve k fs).2 = .ok e) :
+    (dbRetrieve k (crash fs (dbStoreEntryR m fs).1 j n)).2 = .ok e :=
+  earlier_commits_intact_txn m.key m.ext m.dh (storeEntryBodyR m)
+    (fun _ _ ho => storeEntryBodyR_paths ho) fs j n k e hk hk2 h
+
+/-- On the crash states that defeat the code (F5: after `h_dir.mkdir()`, after
+    the index `touch`, after a torn datainfo) the repaired store of a model
+    sharing the dataset succeeds and is retrieved faithfully; and in the
+    wrong-dataset scenario the model keeps its own dataset. -/
+theorem repaired_witness :
+    (∀ jn ∈ [(16, none), (17, none), (19, some 3), (20, some 5)],
+      let fs := wCrash jn.1 jn.2
+      (dbStoreEntryR wM2 fs).2 = .ok () ∧
+      (dbRetrieve "K2" (applyAll fs (dbStoreEntryR wM2 fs).1)).2 = .ok wM2.entry) ∧
+    (let fs0 := wCrash 17 none
+     let fs1 := applyAll fs0 (dbStoreEntryR wM3 fs0).1
+     let fs2 := applyAll fs1 (dbStoreEntryR wM2 fs1).1
+     (dbRetrieve "K2" fs2).2 = .ok wM2.entry ∧ (dbRetrieve "K3" fs2).2 = .ok wM3.entry) := by
+  decide
 
 end Pharmpy.C16
